@@ -166,6 +166,22 @@ impl<'g> Cx<'g> {
             syn::Expr::MethodCall(m) => self.method_call(m, exp, e, stmts),
             syn::Expr::Macro(m) => self.expr_macro(&m.mac, exp, e, stmts),
             syn::Expr::Try(t) => self.try_expr(t, stmts),
+            syn::Expr::Range(r) => {
+                if !matches!(r.limits, syn::RangeLimits::HalfOpen(_)) {
+                    return self.bail(e.span(), "only half-open ranges are supported");
+                }
+                match (&r.start, &r.end) {
+                    (Some(a), Some(b)) => {
+                        let (at, aty) = self.expr(a, Some(&Ty::Int(64)), stmts)?;
+                        let (bt, bty) = self.expr(b, Some(&Ty::Int(64)), stmts)?;
+                        if !matches!(aty, Ty::Int(64) | Ty::IntAny) || !matches!(bty, Ty::Int(64) | Ty::IntAny) {
+                            return self.bail(e.span(), "only `Range<u64>` values are supported");
+                        }
+                        Ok((format!("(RustSem.Range.mk {} {})", at, bt), Ty::Named("Range".into())))
+                    }
+                    _ => self.bail(e.span(), "range value needs both bounds"),
+                }
+            }
             syn::Expr::Return(_) => self.bail(e.span(), "`return` in this expression position is not supported"),
             _ => self.bail(e.span(), format!("unsupported expression `{}`", self.src(e.span(), String::new()))),
         }
@@ -605,36 +621,95 @@ impl<'g> Cx<'g> {
         Ok(f.clone())
     }
 
+    /// `place.method(args)` where `method` is a `&mut self` method (translated or semantic model):
+    /// binds the pair (new receiver, result), writes the receiver back, yields the result.
+    /// `try_mode`: the call is followed by `?`.
+    fn mut_method_call(&mut self, m: &syn::ExprMethodCall, try_mode: bool, stmts: &mut Vec<Stmt>) -> R<Option<(String, Ty)>> {
+        if !self.is_place(&m.receiver) {
+            return Ok(None);
+        }
+        let mut probe: Vec<Stmt> = Vec::new();
+        let saved = self.tmp_mark();
+        let pl = match self.place(&m.receiver, &mut probe) {
+            Ok(p) => p,
+            Err(_) => {
+                self.tmp_reset(saved);
+                return Ok(None);
+            }
+        };
+        let n = match pl.ty() {
+            Ty::Named(n) => n,
+            _ => {
+                self.tmp_reset(saved);
+                return Ok(None);
+            }
+        };
+        let is_mut = self
+            .g
+            .fns
+            .get(&(Some(n.clone()), m.method.to_string()))
+            .map(|v| v.iter().any(|f| f.self_mode == SelfMode::Mut))
+            .unwrap_or(false);
+        if !is_mut {
+            self.tmp_reset(saved);
+            return Ok(None);
+        }
+        stmts.extend(probe);
+        let info = self.find_fn(Some(&n), &m.method.to_string(), m.method.span())?;
+        if m.args.len() != info.params.len() {
+            return self.bail(m.span(), "wrong number of arguments");
+        }
+        let cur = self.read(&pl, stmts)?;
+        let mut args = format!(" {}", cur);
+        for (a, (_, pt)) in m.args.iter().zip(info.params.iter()) {
+            let (t, _) = self.expr(a, Some(pt), stmts)?;
+            args.push_str(&format!(" {}", t));
+        }
+        let applied = format!("{}{}", self.fn_lean_name(&info), args);
+        let (caller, ok_ty) = match (&info.ret, try_mode) {
+            (Ty::Res(a, b), true) => (self.try_caller(b, m.span())?, (**a).clone()),
+            (Ty::Res(_, _), false) => return self.bail(m.span(), "a `Result` fn can only be called with `?` or in return position"),
+            (_, true) => return self.bail(m.span(), "`?` on a call that does not return `Result`"),
+            (t, false) => ("Exec.call".to_string(), t.clone()),
+        };
+        let t = self.fresh();
+        stmts.push(Stmt::Bind(t.clone(), Doc::atom(format!("{} ({})", caller, applied))));
+        self.write(&pl, format!("{}.1", t), stmts)?;
+        let v = if matches!(ok_ty, Ty::Unit) { "()".to_string() } else { format!("{}.2", t) };
+        Ok(Some((v, ok_ty)))
+    }
+
+    /// the `Exec` combinator for `callee(..)?` given the callee's error type
+    fn try_caller(&self, callee_err: &Ty, span: proc_macro2::Span) -> R<String> {
+        let my_err = match &self.err {
+            Some(e) => e.clone(),
+            None => return self.bail(span, "`?` in a function that does not return `Result`"),
+        };
+        if format!("{:?}", callee_err) == format!("{:?}", my_err) {
+            return Ok("Exec.call".to_string());
+        }
+        let (src, dst) = match (callee_err, &my_err) {
+            (Ty::Named(a), Ty::Named(b)) => (a.clone(), b.clone()),
+            _ => return self.bail(span, "`?` with an error conversion between these types is not supported"),
+        };
+        match self.g.from_impls.iter().find(|(s, d, _)| *s == src && *d == dst) {
+            Some((_, _, key)) => {
+                let v = self.g.fns.get(key).unwrap();
+                let f = &v[0];
+                if f.order >= self.order {
+                    return self.bail(span, "the `From` impl used by `?` must be emitted before its use: fix the manifest order");
+                }
+                Ok(format!("Exec.callFrom {}", self.fn_lean_name(f)))
+            }
+            None => self.bail(span, format!("`?` needs `impl From<{}> for {}`, which is not a selected item", src, dst)),
+        }
+    }
+
     /// bind the result of a call of a translated non-`Result` fn
     fn bind_call(&mut self, e: &syn::Expr, stmts: &mut Vec<Stmt>) -> R<(String, Ty)> {
-        // `&mut self` methods called on a place: thread the new receiver back
         if let syn::Expr::MethodCall(m) = e {
-            if self.is_place(&m.receiver) {
-                let mut probe: Vec<Stmt> = Vec::new();
-                let saved = self.tmp_mark();
-                let pl = self.place(&m.receiver, &mut probe)?;
-                if let Ty::Named(n) = pl.ty() {
-                    if let Some(v) = self.g.fns.get(&(Some(n.clone()), m.method.to_string())) {
-                        if v.iter().any(|f| f.self_mode == SelfMode::Mut) {
-                            stmts.extend(probe);
-                            let info = self.find_fn(Some(&n), &m.method.to_string(), m.method.span())?;
-                            if matches!(info.ret, Ty::Res(_, _)) {
-                                return self.bail(e.span(), "a `Result` fn can only be called with `?` or in return position");
-                            }
-                            let cur = self.read(&pl, stmts)?;
-                            let mut args = format!(" {}", cur);
-                            for (a, (_, pt)) in m.args.iter().zip(info.params.iter()) {
-                                let (t, _) = self.expr(a, Some(pt), stmts)?;
-                                args.push_str(&format!(" {}", t));
-                            }
-                            let t = self.fresh();
-                            stmts.push(Stmt::Bind(t.clone(), Doc::atom(format!("Exec.call ({}{})", self.fn_lean_name(&info), args))));
-                            self.write(&pl, format!("{}.1", t), stmts)?;
-                            return Ok((format!("{}.2", t), info.ret.clone()));
-                        }
-                    }
-                }
-                self.tmp_reset(saved);
+            if let Some(r) = self.mut_method_call(m, false, stmts)? {
+                return Ok(r);
             }
         }
         let (term, info) = self.call_term(e, stmts)?;
@@ -644,29 +719,41 @@ impl<'g> Cx<'g> {
         if info.self_mode == SelfMode::Mut {
             return self.bail(e.span(), "`&mut self` method called on something that is not a place");
         }
+        if !info.mut_params.is_empty() {
+            return self.bail(e.span(), "call of a fn with `&mut` cursor parameters is not supported");
+        }
         let t = self.fresh();
         stmts.push(Stmt::Bind(t.clone(), Doc::atom(format!("Exec.call ({})", term))));
         Ok((t, info.ret.clone()))
     }
 
     fn try_expr(&mut self, t: &syn::ExprTry, stmts: &mut Vec<Stmt>) -> R<(String, Ty)> {
-        let my_err = match &self.err {
-            Some(e) => e.clone(),
-            None => return self.bail(t.span(), "`?` in a function that does not return `Result`"),
-        };
-        let (term, info) = self.call_term(&t.expr, stmts)?;
+        if self.err.is_none() {
+            return self.bail(t.span(), "`?` in a function that does not return `Result`");
+        }
+        let mut inner: &syn::Expr = &t.expr;
+        while let syn::Expr::Paren(p) = inner {
+            inner = &p.expr;
+        }
+        if let syn::Expr::MethodCall(m) = inner {
+            if let Some(r) = self.mut_method_call(m, true, stmts)? {
+                return Ok(r);
+            }
+        }
+        let (term, info) = self.call_term(inner, stmts)?;
         let (ok, er) = match &info.ret {
             Ty::Res(a, b) => ((**a).clone(), (**b).clone()),
             _ => return self.bail(t.span(), "`?` on a call that does not return `Result`"),
         };
         if info.self_mode == SelfMode::Mut {
-            return self.bail(t.span(), "`?` on a `&mut self` method call is not supported");
+            return self.bail(t.span(), "`&mut self` method called on something that is not a place");
         }
-        if format!("{:?}", er) != format!("{:?}", my_err) {
-            return self.bail(t.span(), "`?` with an error conversion (`From`) is not supported");
+        if !info.mut_params.is_empty() {
+            return self.bail(t.span(), "call of a fn with `&mut` cursor parameters is not supported");
         }
+        let caller = self.try_caller(&er, t.span())?;
         let v = self.fresh();
-        stmts.push(Stmt::Bind(v.clone(), Doc::atom(format!("Exec.call ({})", term))));
+        stmts.push(Stmt::Bind(v.clone(), Doc::atom(format!("{} ({})", caller, term))));
         Ok((v, ok))
     }
 
@@ -781,11 +868,34 @@ impl<'g> Cx<'g> {
         if super::analysis::MUTATING_METHODS.contains(&name.as_str()) {
             return self.bail(whole.span(), format!("`{}` is only supported as a statement on a place", name));
         }
+        // iterator `next()` on a place: head of the list, the place keeps the tail
+        if name == "next" && m.args.is_empty() && self.is_place(&m.receiver) {
+            let pl = self.place(&m.receiver, stmts)?;
+            if let Ty::List(et, ListKind::Iter) = pl.ty() {
+                let cur = self.read(&pl, stmts)?;
+                let t = self.fresh();
+                stmts.push(Stmt::Let(t.clone(), format!("(List.head? {})", cur)));
+                self.write(&pl, format!("(List.tail {})", cur), stmts)?;
+                return Ok((t, Ty::Opt(et)));
+            }
+            return self.bail(whole.span(), "`next()` is only supported on a slice iterator variable");
+        }
         // translated methods first (receiver of a translated type)
         let mut probe: Vec<Stmt> = Vec::new();
         let saved = self.tmp_mark();
         let (r, rt) = self.expr(&m.receiver, None, &mut probe)?;
-        if let Ty::Named(_) = rt {
+        if let Ty::Named(n) = &rt {
+            // observers of the semantic-model cursor types are pure
+            let pure_model = match (n.as_str(), name.as_str(), m.args.len()) {
+                ("OctetsMut" | "Octets", "cap" | "off" | "len", 0) => Some(Ty::usize()),
+                ("OctetsMut" | "Octets", "is_empty", 0) => Some(Ty::Bool),
+                ("OctetsMut" | "Octets", "to_vec", 0) => Some(Ty::List(Box::new(Ty::u8()), ListKind::Vec)),
+                _ => None,
+            };
+            if let Some(t) = pure_model {
+                stmts.extend(probe);
+                return Ok((format!("(RustSem.{}.{} {})", n, name, r), t));
+            }
             self.tmp_reset(saved);
             return self.bind_call(whole, stmts);
         }
@@ -808,6 +918,8 @@ impl<'g> Cx<'g> {
                 Ok((format!("(RustSem.{} {} {})", name, w, r), Ty::List(Box::new(Ty::u8()), ListKind::Array)))
             }
             (Ty::Int(_) | Ty::Bool, "clone", 0) => Ok((r, rt.clone())),
+            (Ty::List(e, k), "iter", 0) if *k != ListKind::Iter => Ok((r, Ty::List(e.clone(), ListKind::Iter))),
+            (Ty::List(e, ListKind::Iter), "rev", 0) => Ok((format!("(List.reverse {})", r), Ty::List(e.clone(), ListKind::Iter))),
             (Ty::List(_, _), "len", 0) => Ok((format!("(RustSem.len {})", r), Ty::usize())),
             (Ty::List(_, _), "is_empty", 0) => Ok((format!("(RustSem.is_empty {})", r), Ty::Bool)),
             (Ty::List(e, _), "to_vec", 0) => Ok((r, Ty::List(e.clone(), ListKind::Vec))),
